@@ -50,6 +50,12 @@ func verif_assert(b bool) {
 
 func verif_assume(b bool) {}
 
+// verif_rangeidx stands for the number of completed iterations of the enclosing range loop (contracts only).
+func verif_rangeidx() int { return 0 }
+
+// verif_arg stands for the i-th argument of the call a call-site assertion is attached to (contracts only).
+func verif_arg[T any](i int) T { var z T; return z }
+
 // ---- little-endian views, written from the storage-format documentation (not from encoding/binary)
 
 func verif_le16(b []byte) uint16 { return uint16(b[0]) | uint16(b[1])<<8 }
